@@ -42,6 +42,9 @@ import (
 //	visit   [earlier operation,] a GET/POST to ANY dashboard route from loopback /
 //	        public with / without the jar [thorough: two of them], then the jar is
 //	        presented from a public address to every protected route (seq.go)
+//	confdoc the configuration as a JSON DOCUMENT (every accepted spelling of the two
+//	        switches × password modes) decoded as main.go does; the reference is
+//	        computed from the document, the handler gets the decoded value (confdoc.go)
 //	conc    N concurrent requests on one wrapped route under the controlled
 //	        scheduler: every interleaving of the statements of shovel/web with a
 //	        bounded number of preemptions (conc.go) — schedule exploration
@@ -51,7 +54,8 @@ type Case struct {
 	Kind     string   `json:"kind"` // route | authn | login | seq
 	Disable  bool     `json:"disable_authn"`
 	LoopAuth bool     `json:"enable_loopback_authn"`
-	PW       string   `json:"password,omitempty"` // configured | generated
+	PW       string   `json:"password,omitempty"`   // configured | generated
+	Doc      string   `json:"config_doc,omitempty"` // "": configuration built as a Go literal; else spellings of the switches in a JSON document (env.go)
 	Remote   string   `json:"remote"`
 	Cookie   string   `json:"cookie,omitempty"`
 	Hdr      string   `json:"headers,omitempty"`
@@ -72,10 +76,10 @@ func mustJSON(v any) json.RawMessage {
 	return b
 }
 
-func (k Case) cfg() cfg { return cfg{k.Disable, k.LoopAuth, k.PW} }
+func (k Case) cfg() cfg { return cfg{Disable: k.Disable, LoopAuth: k.LoopAuth, PW: k.PW, Doc: k.Doc} }
 
 func mk(kind string, k cfg) Case {
-	return Case{Kind: kind, Disable: k.Disable, LoopAuth: k.LoopAuth, PW: k.PW}
+	return Case{Kind: kind, Disable: k.Disable, LoopAuth: k.LoopAuth, PW: k.PW, Doc: k.Doc}
 }
 
 func init() {
@@ -91,6 +95,7 @@ func init() {
 			"login: same configurations×addresses×5 methods×8 guesses (correct, wrong first/last byte, empty, missing, proper prefix, correct+suffix, other case)×3 header variants, each on a fresh handler; every issued session is presented 2× to the issuer and 2× to a second instance. " +
 			"seq: all sequences of length 1..3 (thorough 1..4) over {login-ok-loopback, login-ok-remote, login-wrong, login-ok-elsewhere (correct login to ANOTHER instance, cookie goes to the jar), protected-with-jar-cookie, protected-without-cookie, protected-with-garbage-cookie} × 8 configurations on one handler whose mux mirrors main.go with the real handler methods; a Set-Cookie under the session name in ANY response replaces the jar, and the jar is a valid session only if a correct-password login to this handler filled it. " +
 			"visit: 8 configurations × {no earlier operation, login-ok-remote, login-wrong, login-ok-elsewhere} × one request (thorough additionally: two requests) to any dashboard route registered in main.go × {GET,POST} × {loopback, public} × {with, without jar}, then the jar is presented from a public address with GET and POST to every protected route. " +
+			"confdoc: the configuration written as a JSON document — disable_authn and enable_loopback_authn each absent/false/true (the spellings the plain-bool fields accept; 9 combinations) × {root_password given, absent} — decoded with encoding/json into config.Root + config.ValidateFix exactly as cmd/shovel/main.go does and handed to web.New; reference computed from the document; × remote addresses × cookie states {none, garbage, own session, another instance's session} (thorough: all 14) × {GET,POST} (thorough 7 methods) × every protected route, plus correct/wrong/empty logins from a public and a loopback address. " +
 			"conc (schedule exploration, NOT plain enumeration): authn in force (disable_authn off) × enable_loopback_authn × every ordered pair (thorough also every ordered triple) of request kinds {operator with a session from a login made before the concurrent phase, public visitor without cookie / with garbage cookie / with another process's cookie, loopback visitor}, one controlled thread per request, all on the same Authn-wrapped route of one handler; all interleavings at statement granularity of shovel/web with ≤2 preemptions (thorough: pairs ≤3 on every protected route and both password modes, triples ≤2); a case is (configuration, route, kinds, choice sequence) and every request of every execution is judged by the same per-request oracle. " +
 			"sweep: every single-character change and every proper prefix of an issued session, presented 2×. " +
 			"Every case is one distinct tuple; a case is non-trivial when disable_authn is off (loopback/session logic decides) — for login cases additionally when the method is POST (the password decides).",
@@ -102,6 +107,7 @@ func init() {
 			"the route table is read from the source text of cmd/shovel/main.go (the file the binary was built from, overlay-aware); registrations made elsewhere or through other identifiers than <x>.Handle/<x>.HandleFunc with a literal pattern are not seen",
 			"GET /login is judged only for status in {200,500} and absence of Set-Cookie (its template is not judged)",
 			"cookie attributes (Secure, MaxAge, SameSite) and session expiry are not judged",
+			"configuration documents: only the boolean spellings absent/false/true are enumerated (quoted or $ENV spellings are decode errors on plain bool fields); root_password is a literal (no $ENV expansion); all other parts build config.Root as a Go literal",
 			"the generated password is read from the unexported Handler.password field by reflection (after a GET /login from loopback if the handler holds none yet); an empty or absent guess is never the password",
 		},
 		Budget:        map[string]time.Duration{"quick": 120 * time.Second, "thorough": 800 * time.Second},
@@ -587,6 +593,7 @@ func run(c *fw.Ctx) {
 	partSeq(c, rt)
 	partVisit(c, rt)
 	partConc(c, rt)
+	partConfDoc(c, rt)
 	partSweep(c, rt)
 }
 
